@@ -23,7 +23,7 @@ def run(ctx):
     thorough, seed = ctx["thorough"], ctx["seed"]
     total = {"evaluations": 0, "disagreements": [], "violations": [], "streams": {}, "distribution": {}, "distinct_nontrivial": 0}
     for name, rr in (("roundtrip", roundtrip.check(seed, 3000 if thorough else 300)),
-                     ("strlit", roundtrip.check_strings(seed + 1, 30000 if thorough else 3000))):
+                     ("strlit", roundtrip.check_strings(seed + 1, 200000 if thorough else 3000))):
         total["evaluations"] += rr["evaluations"]
         total["distinct_nontrivial"] += rr.get("distinct", 0)
         total["disagreements"] += rr["disagreements"]
